@@ -127,6 +127,7 @@ let rec gx (x : sx) : g =
   | L [A "NestedIn"; a] -> NestedIn (gx a)
   | L [A "ExtWrap"; a] -> ExtWrap (gx a)
   | L [A "Skip"; n] -> Skip (natx n)
+  | L [A "Padded"; ws; a] -> Padded (toks ws, gx a)
   | L [A "Lazy"; a] -> ThenIgnore (gx a, RepUnit (IRep (Any, O, None)))      (* Syntax.Lazy: lazy() = then_ignore(any().repeated()) *)
   | L [A "WithState"; k; a] -> WithState (n_of_int (num k), gx a)
   | L [A "NestedDelims"; s; e; L others] ->
@@ -155,6 +156,7 @@ and itx (x : sx) : iT =
   | L [A "IMap"; f; i] -> IMap (fn1x f, itx i)
   | L [A "IMapWith"; f; i] -> IMapWith (mwx f, itx i)
   | L [A "IOrNot"; a] -> IOrNot (gx a)
+  | L [A "IIntoIter"; a] -> IIntoIter (gx a)
   | L [A "IRepCfg"; a; lo; hi] -> IRepCfg (gx a, natx lo, optnat hi, O)
   | L [A "IRepCfg"; a; lo; hi; ck] -> IRepCfg (gx a, natx lo, optnat hi, natx ck)
   | _ -> failwith "iter"
